@@ -76,12 +76,13 @@ theorem reported_counts_are_pooled_counts {κ : Key} {ms : List Entry} {g : Grou
     summed over the in-codespace trials; with rows of width `2k` the blocks are the first and
     the last `k` bits -/
 theorem sector_counts_are_flagged_bits {κ : Key} {ms : List Entry} {g : Group} {k : Nat}
-    (h : mkGroup κ ms = .ok g) (wf : ∀ e ∈ ms, e.WF) (hne : ms ≠ [])
+    (h : mkGroup κ ms = .ok g) (wf : ∀ e ∈ ms, e.WF) (hne : pool ms ≠ [])
     (hw : ∀ e ∈ ms, e.HasWidth (2 * k)) (sectorX : Bool) :
     g.countFails sectorX = .ok
       ((((pool ms).filter (·.cs)).map fun t =>
         (if sectorX then t.row.take k else t.row.drop k).sum).sum) := by
-  have hs := mkGroup_shape_of_width h hne hw
+  have hs := mkGroup_shape_of_width h wf hw
+  rw [if_neg hne] at hs
   have := (mkGroup_isPool h wf).countFails hs sectorX
   rw [this]
   simp [specSectorFails]
@@ -90,14 +91,15 @@ theorem sector_counts_are_flagged_bits {κ : Key} {ms : List Entry} {g : Group} 
     (any, X, Y, Z) the count is the number of pooled trials whose bits `(x_i, z_i)` show that
     event; on binary rows the X, Y, Z counts add up to the `any` count -/
 theorem single_qubit_counts {κ : Key} {ms : List Entry} {g : Group} {k : Nat}
-    (h : mkGroup κ ms = .ok g) (wf : ∀ e ∈ ms, e.WF) (hne : ms ≠ [])
+    (h : mkGroup κ ms = .ok g) (wf : ∀ e ∈ ms, e.WF) (hne : pool ms ≠ [])
     (hw : ∀ e ∈ ms, e.HasWidth (2 * k)) (hk : g.k = k) (hk0 : 0 < k) :
     g.singleCounts = .ok (some ((List.range k).map fun i =>
       (List.range 4).map fun t => specPattern k i t (pool ms))) ∧
     ((∀ t ∈ pool ms, ∀ x ∈ t.row, x < 2) → ∀ i,
       specPattern k i 0 (pool ms) =
         specPattern k i 1 (pool ms) + specPattern k i 2 (pool ms) + specPattern k i 3 (pool ms)) := by
-  have hs := mkGroup_shape_of_width h hne hw
+  have hs := mkGroup_shape_of_width h wf hw
+  rw [if_neg hne] at hs
   have := (mkGroup_isPool h wf).singleCounts hs (by omega) (by rw [hk]; omega)
   rw [this, hk]
   refine ⟨by simp, fun hbin i => specPattern_partition k i _ hbin⟩
@@ -172,17 +174,15 @@ theorem pooled_counts_invariant {κ : Key} {ms₁ ms₂ : List Entry} {g₁ g₂
     | some w =>
       simp only [p₁.patternCount, p₂.patternCount, fun kq i t => specPattern_perm kq i t hperm]
 
-/-- the same at the level of whole file sets: if two sets of files hold, for the key `κ`,
-    well-formed entries whose pooled trials are permutations of each other (same code, hence
-    same `k` and row width `2k`), then the rows reported for `κ` coincide in every count -/
-theorem analysis_conserved_under_repartition {files₁ files₂ : List Data} {κ : Key} {g₁ g₂ : Group}
-    {k : Nat}
-    (h₁ : mkGroup κ (groupOf (flattenList files₁) κ) = .ok g₁)
-    (h₂ : mkGroup κ (groupOf (flattenList files₂) κ) = .ok g₂)
-    (wf₁ : ∀ e ∈ groupOf (flattenList files₁) κ, e.WF ∧ e.HasWidth (2 * k) ∧ e.k = k)
-    (wf₂ : ∀ e ∈ groupOf (flattenList files₂) κ, e.WF ∧ e.HasWidth (2 * k) ∧ e.k = k)
-    (hne₁ : groupOf (flattenList files₁) κ ≠ []) (hne₂ : groupOf (flattenList files₂) κ ≠ [])
-    (hperm : (pool (groupOf (flattenList files₁) κ)).Perm (pool (groupOf (flattenList files₂) κ))) :
+/-- the same with the side conditions discharged from the stored data: all entries of the key
+    are well-formed results of one code (`k` logical qubits, rows of width `2k`); entries WITHOUT
+    TRIALS are allowed on both sides -/
+theorem pooled_counts_invariant_of_code {κ : Key} {ms₁ ms₂ : List Entry} {g₁ g₂ : Group} {k : Nat}
+    (h₁ : mkGroup κ ms₁ = .ok g₁) (h₂ : mkGroup κ ms₂ = .ok g₂)
+    (wf₁ : ∀ e ∈ ms₁, e.WF ∧ e.HasWidth (2 * k) ∧ e.k = k)
+    (wf₂ : ∀ e ∈ ms₂, e.WF ∧ e.HasWidth (2 * k) ∧ e.k = k)
+    (hne₁ : ms₁ ≠ []) (hne₂ : ms₂ ≠ [])
+    (hperm : (pool ms₁).Perm (pool ms₂)) :
     g₁.nTrials = g₂.nTrials ∧ g₁.nFail = g₂.nFail ∧ g₁.pEst = g₂.pEst ∧
     g₁.nTrialsSector = g₂.nTrialsSector ∧
     g₁.countFails true = g₂.countFails true ∧ g₁.countFails false = g₂.countFails false ∧
@@ -196,8 +196,72 @@ theorem analysis_conserved_under_repartition {files₁ files₂ : List Data} {κ
     | cons e rest => simpa using (hall e (by simp)).2.2
   apply pooled_counts_invariant h₁ h₂ (fun e he => (wf₁ e he).1) (fun e he => (wf₂ e he).1) hperm
   · rw [hk h₁ hne₁ wf₁, hk h₂ hne₂ wf₂]
-  · rw [mkGroup_shape_of_width h₁ hne₁ (fun e he => (wf₁ e he).2.1),
-        mkGroup_shape_of_width h₂ hne₂ (fun e he => (wf₂ e he).2.1)]
+  · rw [mkGroup_shape_of_width h₁ (fun e he => (wf₁ e he).1) (fun e he => (wf₁ e he).2.1),
+        mkGroup_shape_of_width h₂ (fun e he => (wf₂ e he).1) (fun e he => (wf₂ e he).2.1)]
+    have hiff : pool ms₁ = [] ↔ pool ms₂ = [] := by
+      constructor
+      · intro h0; rw [h0] at hperm; exact hperm.symm.eq_nil
+      · intro h0; rw [h0] at hperm; exact hperm.eq_nil
+    by_cases h0 : pool ms₁ = []
+    · rw [if_pos h0, if_pos (hiff.mp h0)]
+    · rw [if_neg h0, if_neg (fun h' => h0 (hiff.mpr h'))]
+
+/-- at the level of whole file sets: if two sets of files hold, for the key `κ`, well-formed
+    entries whose pooled trials are permutations of each other (same code, hence same `k` and row
+    width `2k`; any number of zero-trial entries), the rows reported for `κ` coincide in every count -/
+theorem analysis_conserved_under_repartition {files₁ files₂ : List Data} {κ : Key} {g₁ g₂ : Group}
+    {k : Nat}
+    (h₁ : mkGroup κ (groupOf (flattenList files₁) κ) = .ok g₁)
+    (h₂ : mkGroup κ (groupOf (flattenList files₂) κ) = .ok g₂)
+    (wf₁ : ∀ e ∈ groupOf (flattenList files₁) κ, e.WF ∧ e.HasWidth (2 * k) ∧ e.k = k)
+    (wf₂ : ∀ e ∈ groupOf (flattenList files₂) κ, e.WF ∧ e.HasWidth (2 * k) ∧ e.k = k)
+    (hne₁ : groupOf (flattenList files₁) κ ≠ []) (hne₂ : groupOf (flattenList files₂) κ ≠ [])
+    (hperm : (pool (groupOf (flattenList files₁) κ)).Perm (pool (groupOf (flattenList files₂) κ))) :
+    g₁.nTrials = g₂.nTrials ∧ g₁.nFail = g₂.nFail ∧ g₁.pEst = g₂.pEst ∧
+    g₁.nTrialsSector = g₂.nTrialsSector ∧
+    g₁.countFails true = g₂.countFails true ∧ g₁.countFails false = g₂.countFails false ∧
+    g₁.nResults = g₂.nResults ∧ g₁.singleCounts = g₂.singleCounts :=
+  pooled_counts_invariant_of_code h₁ h₂ wf₁ wf₂ hne₁ hne₂ hperm
+
+/-- parts with zero trials (a run that saved before its first trial) change nothing: pooling the
+    entries `ms` together with any zero-trial entries `extra`, in any interleaving `ms'`, succeeds
+    and reports the row of `ms` -/
+theorem zero_trial_parts_change_nothing {κ : Key} {ms extra ms' : List Entry} {g : Group} {k : Nat}
+    (h : mkGroup κ ms = .ok g)
+    (wf : ∀ e ∈ ms, e.WF ∧ e.HasWidth (2 * k) ∧ e.k = k) (hne : ms ≠ [])
+    (hextra : ∀ e ∈ extra, e.ee = [] ∧ e.success = [] ∧ e.codespace = [] ∧ e.k = k)
+    (hperm : ms'.Perm (ms ++ extra)) :
+    ∃ g', mkGroup κ ms' = .ok g' ∧
+      g'.nTrials = g.nTrials ∧ g'.nFail = g.nFail ∧ g'.pEst = g.pEst ∧
+      g'.nTrialsSector = g.nTrialsSector ∧
+      g'.countFails true = g.countFails true ∧ g'.countFails false = g.countFails false ∧
+      g'.nResults = g.nResults ∧ g'.singleCounts = g.singleCounts := by
+  have hx : ∀ e ∈ extra, e.WF ∧ e.HasWidth (2 * k) ∧ e.k = k := by
+    intro e he
+    obtain ⟨h1, h2, h3, h4⟩ := hextra e he
+    exact ⟨by simp [Entry.WF, h1, h2, h3], by simp [Entry.HasWidth, h1], h4⟩
+  have hall : ∀ e ∈ ms', e.WF ∧ e.HasWidth (2 * k) ∧ e.k = k := by
+    intro e he
+    rcases List.mem_append.mp (hperm.mem_iff.mp he) with h1 | h1
+    · exact wf e h1
+    · exact hx e h1
+  obtain ⟨g', hg'⟩ := mkGroup_ok_of_width (κ := κ) (fun e he => (hall e he).2.1)
+  have hpx : pool extra = [] := by
+    unfold pool
+    rw [List.flatMap_eq_nil_iff]
+    intro e he
+    obtain ⟨h1, _, _, _⟩ := hextra e he
+    simp [Entry.trials, h1, zip3]
+  have hpool : (pool ms').Perm (pool ms) := by
+    have := pool_perm hperm
+    rwa [pool_append, hpx, List.append_nil] at this
+  have hne' : ms' ≠ [] := by
+    intro h0
+    rw [h0] at hperm
+    have := hperm.symm.eq_nil
+    simp at this
+    exact hne this.1
+  exact ⟨g', hg', pooled_counts_invariant_of_code hg' h hall wf hne' hne hpool⟩
 
 /-- the wall time of a row is the sum over its entries, in any order -/
 theorem wall_time_order_irrelevant {κ : Key} {ms₁ ms₂ : List Entry} {g₁ g₂ : Group}
@@ -241,27 +305,37 @@ theorem float_verdicts_sound {ε δ f r p w : Rat} {k : ℕ} (hε0 : 0 ≤ ε) (
       ((w * (1 - ε) - δ : Rat) : ℝ) ≤ wordRate p k ∧ wordRate p k ≤ ((w * (1 + ε) + δ : Rat) : ℝ)) :=
   ⟨within_sound, sqrtWithin_sound hε0 hε1, fun hk hp h => wordWithin_sound hk hp h⟩
 
-/-! ## the property fails on the unchanged tree for partitions with an empty part
+/-! ## regression: partitions with an empty part (fixed in /repo by ad5e045)
 
-A results entry without trials has a 1-dimensional `effective_error`; `np.concatenate` refuses
-to pool it with the 2-dimensional arrays of the other entries of the same input and `Analysis`
-raises.  The model is faithful to this (`ERR concat`); the same two entries are replayed on the
-implementation by the oracle (class `empty-part`, listed in `known_findings.json`). -/
+A results entry without trials has a 1-dimensional `effective_error`.  Before ad5e045 `aggregate`
+called `np.concatenate` on all members of a group, which refuses to pool it with the 2-dimensional
+arrays of the other entries, and `Analysis` raised (`oldShapesAgree`).  `concatenate_nonempty` now
+skips such entries; the same two entries are replayed on the implementation by the oracle (class
+`empty-part`). -/
 
 def witnessNonEmpty : Entry := Entry.ofTrials 0 (1/10) 1 (1/2) [⟨[1, 0], false, true⟩]
 def witnessEmpty : Entry := Entry.ofTrials 0 (1/10) 1 0 []
 
-theorem empty_part_breaks_aggregate :
+/-- the witness of the former defect is now pooled, in either order, with the counts of the
+    non-empty part -/
+theorem empty_part_is_pooled :
     witnessNonEmpty.WF ∧ witnessEmpty.WF ∧ witnessNonEmpty.key = witnessEmpty.key ∧
     pool [witnessNonEmpty, witnessEmpty] = pool [witnessNonEmpty] ∧
     (aggregate [witnessNonEmpty]).toOption.map (fun gs => gs.map fun g => (g.nTrials, g.nFail))
       = some [(1, 1)] ∧
-    aggregate [witnessNonEmpty, witnessEmpty] = .error .concat ∧
-    aggregate [witnessEmpty, witnessNonEmpty] = .error .concat := by
-  refine ⟨Entry.ofTrials_wf _ _ _ _ _, Entry.ofTrials_wf _ _ _ _ _, rfl, rfl, ?_, ?_, ?_⟩
-  · decide +kernel
-  · rw [← isConcatError_iff]; decide +kernel
-  · rw [← isConcatError_iff]; decide +kernel
+    (aggregate [witnessNonEmpty, witnessEmpty]).toOption.map
+      (fun gs => gs.map fun g => (g.nTrials, g.nFail, g.countFails true, g.shape)) = some [(1, 1, .ok 1, some 2)] ∧
+    (aggregate [witnessEmpty, witnessNonEmpty]).toOption.map
+      (fun gs => gs.map fun g => (g.nTrials, g.nFail, g.countFails true, g.shape)) = some [(1, 1, .ok 1, some 2)] := by
+  refine ⟨Entry.ofTrials_wf _ _ _ _ _, Entry.ofTrials_wf _ _ _ _ _, rfl, rfl, ?_, ?_, ?_⟩ <;>
+    decide +kernel
+
+/-- regression example: the behaviour before ad5e045 rejected exactly this input -/
+theorem regression_empty_part_broke_old_aggregate :
+    oldAggregateOk [witnessNonEmpty] = true ∧
+    oldAggregateOk [witnessNonEmpty, witnessEmpty] = false ∧
+    oldAggregateOk [witnessEmpty, witnessNonEmpty] = false := by
+  decide +kernel
 
 /-! ## non-vacuity -/
 
@@ -277,7 +351,7 @@ example : (pool splitA).Perm (pool splitB) := by decide
 example : ∀ e ∈ splitA, e.WF ∧ e.HasWidth 2 := by
   intro e he
   simp only [splitA, List.mem_cons, List.not_mem_nil, or_false] at he
-  rcases he with rfl | rfl <;> exact ⟨Entry.ofTrials_wf _ _ _ _ _, by decide, by decide⟩
+  rcases he with rfl | rfl <;> exact ⟨Entry.ofTrials_wf _ _ _ _ _, by unfold Entry.HasWidth; decide⟩
 example : ∃ g, mkGroup (0, 100000) splitA = .ok g ∧ g.nTrials = 3 ∧ g.nFail = 2 ∧
     g.countFails true = .ok 1 ∧ g.countFails false = .ok 0 ∧ g.nTrialsSector = 2 :=
   ⟨_, rfl, by decide +kernel, by decide +kernel, by decide +kernel, by decide +kernel, by decide +kernel⟩
